@@ -105,4 +105,7 @@ def _convert_complexint32_array(
     if value_field_dtype is None:
         raise unsupported_dtype("array data type", value.dtype, _COMPLEX_DTYPES)
 
+    # ndarray.view with a different item size requires a C-contiguous last axis, so copy strided,
+    # transposed, or Fortran-ordered input first. This preserves the shape.
+    value = np.ascontiguousarray(value)
     return value.view(value_field_dtype).astype(requested_field_dtype).view(requested_dtype)
